@@ -521,7 +521,7 @@ Theorem count_winners_scotland pr fuel s k : wf_profile pr -> cf_nballots cfg = 
   nlen (electeds A s) = Z.min (cf_nseats cfg) (nlen (eligibles A s)).
 Proof.
   intros Hwf Hnbt He Hk.
-  assert (Hsr: seat_rule RScotland) by (right; right; reflexivity).
+  assert (Hsr: seat_rule RScotland) by (right; right; left; reflexivity).
   pose proof (count_seats A S ZL cfg Hmeth Hex Hnb Hns RScotland pr fuel s k Hsr Hwf Hnbt He Hk) as Hle.
   assert (Ht: triple (est A) (@crashed A) (fun s0 => s0 = init_state A cfg pr) (count_cmd A cfg RScotland)
             (fun sf => exists s2, WC A cfg s2 /\ sl A sf = sl A (scot_close A cfg s2)) (fun _ => False) (fun _ => False)).
